@@ -79,6 +79,11 @@ def gen_rewards(r, kinds=None, seed=0):
     elif m < 0.22:
         spec["scale"] = -1.0
     spec["types"] = r.choice(["f", "f", "f", "n", "fin", "i" if kind in ("int", "zero") else "f"])
+    if r.random() < 0.1 and "scale" not in spec:
+        # rewards riding on a large constant: cancellation in one-pass variance / near-tie comparisons
+        spec["offset"] = r.choice([1e3, 1e6, 1e6, 4e6, 1e8, -1e6])
+    if r.random() < 0.04 and (kinds is None or "bernoulli" in kinds or True):
+        spec = {"kind": "bernoulli", "seed": seed, "p": r.choice([0.2, 0.5, 0.8]), "types": r.choice(["b", "b", "f", "bf"])}
     if kind == "late":
         spec["late"] = r.randint(1, 120)
     if kind in ("obj", "objneg"):
@@ -263,7 +268,9 @@ def base_scenario(r, seed, algo, *, parts=None, dmax=3, n=None, T=None, real_pro
     sc["rounds"] = T if T is not None else gen_T(r, n)
     sc["rewards"] = gen_rewards(r, reward_kinds, seed)
     sc["rng"] = gen_rng(r, seed, real_prob, faults)
-    sc["schedule"] = gen_schedule(r, sc["rounds"], sched_prob, mid_prob)
+    # SequOOL.get_last_point reads the reward of the cell just handed out, so it is not callable between a pull
+    # and its receive_reward (outside the documented loop; not held against it)
+    sc["schedule"] = gen_schedule(r, sc["rounds"], sched_prob, 0.0 if algo == "SequOOL" else mid_prob)
     if labels:
         sc["labels"] = r.choice([{"scheme": "one"}, {"scheme": "zero"}, {"scheme": "offset", "offset": 17},
                                  {"scheme": "gaps", "seed": seed, "start": r.randint(0, 3)}])
